@@ -57,10 +57,11 @@ func c12Menu(c lockCfg, thorough bool) func(w *engb.World, st *engb.LState, dept
 		engb.LBlock{Dt: 1, Ops: []engb.LOp{{Kind: "claim", Val: 9}, {Kind: "grant", Amt: "3"}}}, // unknown validator: tx rolls back
 		// a claim in the very block at whose end an earlier unlock matures (two kinds of dues meet in one queue)
 		engb.LBlock{Dt: 10, Ops: []engb.LOp{{Kind: "claim", Val: 0}}},
+		// double-sign evidence against a validator with unclaimed rewards (what it has earned stays its own)
+		engb.LBlock{Dt: 1, Evidence: []engb.EvSpec{{Val: 0, AgeBlocks: 1, AgeSecs: 1}}},
 	)
 	if thorough {
 		base = append(base,
-			engb.LBlock{Dt: 1, Evidence: []engb.EvSpec{{Val: 0, AgeBlocks: 1, AgeSecs: 1}}},
 			engb.LBlock{Dt: 1, Gas: "999999999999999999"},
 			engb.LBlock{Dt: 1, Ops: []engb.LOp{{Kind: "grant", Amt: "1"}}},
 		)
